@@ -694,8 +694,10 @@ carquet_status_t carquet_writer_close(carquet_writer_t* writer) {
         goto cleanup;
     }
 
-    /* Flush: bytes still buffered by stdio have not reached the file yet */
-    if (fflush(writer->file) != 0) {
+    /* Flush: bytes still buffered by stdio have not reached the file yet.
+     * The stream's error indicator also remembers a write that failed in an
+     * earlier call, after which the file cannot be complete. */
+    if (fflush(writer->file) != 0 || ferror(writer->file)) {
         status = CARQUET_ERROR_FILE_WRITE;
     }
 
